@@ -90,6 +90,7 @@ var redirectNames = map[string]string{
 	"(*sync.Pool).Put":                                    "verifStubPoolPut",
 	"strconv.ParseFloat":                                  "verifStubParseFloat",
 	"strconv.FormatFloat":                                 "verifStubFormatFloat",
+	"strconv.AppendFloat":                                 "verifStubAppendFloat",
 }
 
 var initAllow = map[string]bool{
